@@ -129,9 +129,13 @@ class Leaf(HasTraits):
     c = Int(0)
 
 
+class Alien(HasTraits):
+    """has none of the observed traits: hooking it up fails"""
+
+
 class Root(HasTraits):
     v = Int(0)
-    a = Instance(Leaf)
+    a = Instance(HasTraits)
     lst = List(Instance(Leaf))
     s = Str("x")
 
@@ -141,7 +145,9 @@ from traits.observation.api import trait as _t
 # registrations that cannot be satisfied: unknown traits at different walk positions, a non-container where list items
 # are required (the text form "items" is optional by design, so the expression API is used for that one)
 BAD_EXPRS = ["missing", "a.missing", "a:[b,zz]", "lst.items.zz", "[v,a.b,a.zz]"]
-BAD_OBJS = {}
+# several expressions in one call, the last one failing, with duplicated patterns among the completed ones
+BAD_OBJS = {"list:v,a.b,v,missing": ["v", "a.b", "v", "missing"],
+            "list:a.[b,c],a.[c,b],a.zz": ["a.[b,c]", "a.[c,b]", "a.zz"]}
 BAD_ALL = BAD_EXPRS + list(BAD_OBJS)
 
 
@@ -191,7 +197,7 @@ def history_harness(k):
         reg = {}
         trace = []
         for step in range(k):
-            op = ex.choice("op%d" % step, 5)
+            op = ex.choice("op%d" % step, 8)
             hi = ex.choice("h%d" % step, 2) if op in (0, 1) else 0
             ei = ex.choice("e%d" % step, len(EXPRS)) if op in (0, 1) else 0
             key = (hi, ei)
@@ -219,6 +225,43 @@ def history_harness(k):
             elif op == 3:
                 root.lst.append(Leaf())
                 trace.append("append")
+            elif op in (5, 6):
+                raised = None
+                try:
+                    if op == 5 and root.lst:
+                        root.lst[:] = [root.lst[0], root.lst[0]]      # multiplicities change: 1 -> 2, the others 1 -> 0
+                    elif op == 6 and len(root.lst) > 1:
+                        root.lst.pop()
+                except Exception as e:
+                    raised = type(e).__name__
+                trace.append("dup" if op == 5 else "pop")
+                if not ex.check(raised is None, "mutating an observed list of healthy items does not raise"):
+                    return {"trace": trace}
+            elif op == 7:
+                # a graph mutation whose hook-up fails: the replaced object is detached all the same
+                old = root.a
+                failed = None
+                try:
+                    root.a = Alien()
+                except Exception as e:
+                    failed = type(e).__name__
+                trace.append("alien:%s" % failed)
+                active = any(cnt > 0 and ee in (1, 2, 4) for (hh, ee), cnt in reg.items())
+                ex.check((failed is not None) == active, "hooking up an object that lacks the observed trait raises (iff something observes it)")
+                calls[0] = calls[1] = 0
+                old.b += 1
+                old.c += 1
+                ok = ex.check(calls[0] == 0 and calls[1] == 0, "the replaced object is detached although hooking up its successor failed")
+                ok = ex.check(not any(isinstance(x, (TraitEventNotifier, ObserverChangeNotifier))
+                                      for ct in old._instance_traits().values() for x in (ct._notifiers(False) or [])),
+                              "the replaced object keeps no notifier although hooking up its successor failed") and ok
+                try:
+                    root.a = Leaf()       # heal, so that the history can go on
+                except Exception as e:
+                    ok = ex.check(False, "replacing the object whose hook-up failed works") and ok
+                if not ok:
+                    return {"trace": trace}       # the residue would only repeat itself in every later observation
+                del errors[:]
             else:
                 bad = BAD_ALL[ex.choice("bad%d" % step, len(BAD_ALL))]
                 pop0 = population(root)
@@ -252,7 +295,11 @@ def history_harness(k):
         # unregister everything that is still registered: populations return to the initial sizes
         for (hi, ei), cnt in list(reg.items()):
             for _ in range(cnt):
-                root.observe(hs[hi], EXPRS[ei], remove=True)
+                try:
+                    root.observe(hs[hi], EXPRS[ei], remove=True)
+                except NotifierNotFound:
+                    ex.check(False, "removing a registered handler succeeds")
+                    return {"trace": trace}
         ex.check(population(root) == {}, "after n registrations and n removals every notifier population is back at its initial size")
         calls[0] = calls[1] = 0
         root.v += 1
@@ -300,6 +347,27 @@ def weak_harness(ex):
         return {"which": which}
     finally:
         _eh.pop_exception_handler()
+
+
+def multi_maintainer_alien(v):
+    """known-finding helper: the history reaches a failing hook-up (op 7) while >= 2 maintainers sit on Root.a"""
+    reg = {}
+    i = 0
+    while "op%d" % i in v:
+        op, h, e = v["op%d" % i], v.get("h%d" % i, 0), v.get("e%d" % i, 0)
+        if op == 0:
+            reg[(h, e)] = reg.get((h, e), 0) + 1
+        elif op == 1 and reg.get((h, e), 0) > 0:
+            reg[(h, e)] -= 1
+        elif op == 7:
+            graphs = sum(c * (2 if e_ == 4 else 1) for (h_, e_), c in reg.items() if c > 0 and e_ in (1, 2, 4))
+            if graphs >= 2:
+                return True
+        i += 1
+    return False
+
+
+KNOWN_HELPERS = {"c09_multi_maintainer_alien": multi_maintainer_alien}
 
 
 def obligations(tier, build):
